@@ -704,7 +704,7 @@ def gen_analyzer_state():
     (4) `memoryProbes`: reads of `.base` / `.strides` / `.ctypes` / `__array_interface__`, calls of `shares_memory`,
         `may_share_memory`, `byte_bounds`, `id`, `as_strided`, and `is` / `is not` comparisons whose operands are not
         the constants None / True / False: a result that may depend on WHERE its arguments live rather than on their values."""
-    plain, items, noreset, probes = [], [], [], []
+    plain, items, noreset, probes, shifts = [], [], [], [], []
     esc = lambda s: s.replace('\\', '/').replace('"', "'").replace('\n', ' ')      # noqa
 
     def is_self(n):
@@ -735,6 +735,8 @@ def gen_analyzer_state():
                 nm = f.attr if isinstance(f, ast.Attribute) else (f.id if isinstance(f, ast.Name) else None)
                 if nm in MEM_FUNCS:
                     probes.append('%s: %s(...)' % (where, nm))
+                if nm in ('fftshift', 'ifftshift'):
+                    shifts.append(('%s: %s' % (where, src_text(n)[:60]), nm))
             if isinstance(n, ast.Compare) and any(isinstance(o, (ast.Is, ast.IsNot)) for o in n.ops):
                 sides = [n.left] + list(n.comparators)
                 if not any(isinstance(x, ast.Constant) and (x.value is None or x.value is True or x.value is False) for x in sides):
@@ -794,8 +796,10 @@ def gen_analyzer_state():
     lines += lst('attrItemWrites', 'writes INTO an object held in an attribute, outside `__init__`', sorted(set(items)))
     lines += lst('setInputWithoutReset', '`set_input` overrides that neither call the base `set_input` nor `reset()`', sorted(set(noreset)))
     lines += lst('memoryProbes', 'places where a result may depend on where an array lives (base / strides / address / identity)', sorted(set(probes)))
+    lines += ['/-- spectrum re-ordering calls (fftshift / ifftshift / roll) of the analyzers: (where, function) -/',
+              'def shiftCalls : List (String × String) :=\n  [%s]' % ',\n   '.join('("%s", "%s")' % (esc(a), b) for a, b in sorted(set(shifts))), '']
     lines += ['end Nitime.Generated.AnalyzerState', '']
-    echo = {'plainStores': sorted(set(plain)), 'attrItemWrites': sorted(set(items)), 'setInputWithoutReset': sorted(set(noreset)),
+    echo = {'shiftCalls': sorted(set(shifts)), 'plainStores': sorted(set(plain)), 'attrItemWrites': sorted(set(items)), 'setInputWithoutReset': sorted(set(noreset)),
             'memoryProbes': sorted(set(probes))}
     return 'AnalyzerState.lean', '\n'.join(lines), echo
 
